@@ -32,7 +32,7 @@ pub struct RawDep {
 	pub omit_version: bool,
 	pub scope: Option<u8>,
 	pub optional: Option<bool>,
-	/// 0 plain jar, 1 classifier "natives", 2 type test-jar (classifier "tests")
+	/// 0 plain jar, 1 classifier "natives", 2 type test-jar (classifier "tests"), 3 ejb, 4 maven-plugin, 5 explicit jar, 6 war, 7 ejb+natives
 	pub variant: u8,
 }
 
@@ -70,12 +70,12 @@ pub struct Case {
 }
 
 fn raw_dep() -> impl Strategy<Value = RawDep> {
-	(any::<u16>(), any::<u16>(), prop_oneof![2 => Just(false), 1 => Just(true)], proptest::option::weighted(0.5, prop_oneof![4 => Just(0u8), 3 => Just(1u8), 1 => Just(2u8), 1 => Just(3u8), 1 => Just(4u8)]), proptest::option::weighted(0.3, prop_oneof![5 => Just(false), 1 => Just(true)]), prop_oneof![6 => Just(0u8), 1 => Just(1u8), 1 => Just(2u8)])
+	(any::<u16>(), any::<u16>(), prop_oneof![2 => Just(false), 1 => Just(true)], proptest::option::weighted(0.5, prop_oneof![4 => Just(0u8), 3 => Just(1u8), 1 => Just(2u8), 1 => Just(3u8), 1 => Just(4u8)]), proptest::option::weighted(0.3, prop_oneof![5 => Just(false), 1 => Just(true)]), prop_oneof![8 => Just(0u8), 2 => Just(1u8), 2 => Just(2u8), 2 => Just(3u8), 1 => Just(4u8), 2 => Just(5u8), 1 => Just(6u8), 1 => Just(7u8)])
 		.prop_map(|(lib, ver, omit_version, scope, optional, variant)| RawDep { lib, ver, omit_version, scope, optional, variant })
 }
 
 fn raw_managed() -> impl Strategy<Value = RawManaged> {
-	(any::<u16>(), any::<u16>(), proptest::option::weighted(0.4, 0u8..5), proptest::option::weighted(0.15, any::<bool>()), prop_oneof![6 => Just(0u8), 1 => Just(1u8), 1 => Just(2u8)]).prop_map(|(lib, ver, scope, optional, variant)| RawManaged { lib, ver, scope, optional, variant })
+	(any::<u16>(), any::<u16>(), proptest::option::weighted(0.4, 0u8..5), proptest::option::weighted(0.15, any::<bool>()), prop_oneof![8 => Just(0u8), 2 => Just(1u8), 2 => Just(2u8), 2 => Just(3u8), 1 => Just(4u8), 2 => Just(5u8), 1 => Just(6u8), 1 => Just(7u8)]).prop_map(|(lib, ver, scope, optional, variant)| RawManaged { lib, ver, scope, optional, variant })
 }
 
 fn raw_pom(max_deps: usize) -> impl Strategy<Value = RawPom> {
@@ -145,6 +145,13 @@ fn variant_of(v: u8) -> (Option<String>, Option<String>) {
 	match v {
 		1 => (None, Some("natives".into())),
 		2 => (Some("test-jar".into()), None),
+		// types that share the extension `jar` with the default type but are different artifacts
+		3 => (Some("ejb".into()), None),
+		4 => (Some("maven-plugin".into()), None),
+		// the default type spelled out: the same artifact as variant 0
+		5 => (Some("jar".into()), None),
+		6 => (Some("war".into()), None),
+		7 => (Some("ejb".into()), Some("natives".into())),
 		_ => (None, None),
 	}
 }
@@ -655,7 +662,7 @@ fn coord_roundtrip(c: &CoordCase, obs: &mut Obs) -> PropResult {
 }
 
 pub fn run(ctx: &mut Ctx) {
-	ctx.rule = "acyclic POM universes: 2-6 libraries in 1-2 versions each (dependencies only to higher-numbered libraries, any version -> version conflicts at different depths), 0-2 parent POMs (chains) and 0-2 BOMs (imports of further BOMs); POMs inherit group/version/dependencies/management, managed entries precede imports, dependencies omit versions only where the effective management has them, every scope, optional flags, classifier and test-jar variants, 1-3 repositories each serving a subset; rendered to POM XML and served by an in-memory Downloader; 1-3 root dependencies with scopes. Oracle: a reference resolver written from Maven's documentation (effective POM, optional / non-transitive scope cut, scope table, breadth-first nearest-wins with declaration order, losers' subtrees discarded, first serving repository) must give exactly the same list (coordinate, scope, repository); Display/parse round trips of every result and of generated coordinates. Non-trivial = a version conflict resolved by depth or by declaration order, a managed fill-in, or a scope changed by the table; distinct by case hash".into();
+	ctx.rule = "acyclic POM universes: 2-6 libraries in 1-2 versions each (dependencies only to higher-numbered libraries, any version -> version conflicts at different depths), 0-2 parent POMs (chains) and 0-2 BOMs (imports of further BOMs); POMs inherit group/version/dependencies/management, managed entries precede imports, dependencies omit versions only where the effective management has them, every scope, optional flags, classifier and type variants (natives, test-jar, ejb, maven-plugin, explicit jar, war: same or different artifact identity), 1-3 repositories each serving a subset; rendered to POM XML and served by an in-memory Downloader; 1-3 root dependencies with scopes. Oracle: a reference resolver written from Maven's documentation (effective POM, optional / non-transitive scope cut, scope table, breadth-first nearest-wins with declaration order, losers' subtrees discarded, first serving repository) must give exactly the same list (coordinate, scope, repository); Display/parse round trips of every result and of generated coordinates. Non-trivial = a version conflict resolved by depth or by declaration order, a managed fill-in, or a scope changed by the table; distinct by case hash".into();
 	ctx.assume("supported subset only: literal versions, no exclusions/profiles/ranges; managed entries before imports; a child neither re-declares nor manages a dependency its parent chain declares");
 	ctx.assume("real Maven is not available offline: the oracle is the harness's reading of the dependency-mechanism documentation");
 	ctx.run_sub("resolution", ctx.tier.pick(20000, 1000000), strategy, check);
